@@ -607,11 +607,10 @@ mod fp61bit {
             let val = (val & PRIME) + (val >> Self::BITS);
             // another round if val ended up being greater than PRIME
             let val = (val & PRIME) + (val >> Self::BITS);
-            if val == PRIME {
-                Self::ZERO
-            } else {
-                Self(val as <Self as SharedValue>::Storage)
-            }
+            // two rounds leave `val <= PRIME + 127` (for inputs close to `u128::MAX`),
+            // so a final conditional subtraction is needed to get the canonical value.
+            let val = if val >= PRIME { val - PRIME } else { val };
+            Self(val as <Self as SharedValue>::Storage)
         }
     }
 
